@@ -63,6 +63,9 @@ class PotsMonitor:
         if exp is None:
             ctx.counters['undetermined_' + info] += 1
             return
+        if any(type(o).__name__ == 'RunoutCountSelection' and o.runout_count not in (None, 1) for o in st.operations) and \
+                nb > st.starting_board_count:
+            ctx.counters['terminals_with_multiple_runouts'] += 1
         if len(info['pots']) > 1:
             ctx.counters['terminals_with_side_pots'] += 1
         if len(info['pots']) > 2:
@@ -145,9 +148,11 @@ def jobs(tier, seed):
                 out.append(_j(f'2street-{n}p-{boards}b-hilo',
                               C.custom(stacks, TWO, hand_types=HILO, antes=1, boards=boards, plan=plan)))
             for plan in deals(n + boards)[::step * 3]:
-                out.append(_j(f'2street-{n}p-{boards}b-cash-runouts',
-                              C.custom(stacks, TWO, hand_types=HILO, antes=1, boards=boards, mode='cash', plan=plan),
-                              opts={'runouts': (None, 2)}))
+                if n + 2 * boards <= len(DECK):     # else two run-outs of every board need more cards than the tiny deck holds
+                    out.append(_j(f'2street-{n}p-{boards}b-cash-runouts',
+                                  C.custom(stacks, TWO, hand_types=HILO, antes=1, boards=boards, mode='cash', plan=plan,
+                                           autos=[a for a in SHOWAUTO if a != 'RUNOUT_COUNT_SELECTION'] + ['HOLE_CARDS_SHOWING_OR_MUCKING']),
+                                  opts={'runouts': (None, 2)}))
                 out.append(_j(f'2street-{n}p-{boards}b-rake',
                               C.custom(stacks, TWO, hand_types=HILO, antes=1, boards=boards, plan=plan,
                                        rake=('pct', 1, 4, 1, False))))
@@ -172,7 +177,7 @@ def run_job(job):
 
 def sanity(agg, counters, fam, tier):
     msgs = []
-    for k in ('terminals_with_side_pots', 'split_outcomes', 'terminals_with_2+_side_pots'):
+    for k in ('terminals_with_side_pots', 'split_outcomes', 'terminals_with_2+_side_pots', 'terminals_with_multiple_runouts'):
         if not counters.get(k):
             msgs.append(f'{k} == 0')
     return msgs
